@@ -65,7 +65,10 @@ EvFails(e) ==
   \cup (IF e.s[2] >= e.s[1] - 1 THEN {} ELSE {"C18.compression_entropy"})                   \* state 0 -> 1
   \cup (IF e.s[4] >= e.s[3] - 1 THEN {} ELSE {"C18.throttling_entropy"})                    \* state 2 -> 3
   \cup (IF Near(e.h[4], e.h[3], 2) THEN {} ELSE {"C18.throttling_isenthalpic"})
-  \cup (IF Near(e.p[1], e.psatE, 2) /\ Near(e.p[2], e.psatC, 2) /\ e.p[4] = e.p[1] /\ e.p[3] = e.p[2] THEN {} ELSE {"C18.saturation_pressures"})
+  (* pressures arrive in units of 10 Pa, rounded: equal quantities may differ by one unit, and by 1e-5 relative at high pressure *)
+  \cup (IF /\ Near(e.p[1], e.psatE, 2 + e.psatE \div 100000) /\ Near(e.p[2], e.psatC, 2 + e.psatC \div 100000)
+           /\ Near(e.p[4], e.p[1], 1 + e.p[1] \div 100000) /\ Near(e.p[3], e.p[2], 1 + e.p[2] \div 100000)
+        THEN {} ELSE {"C18.saturation_pressures"})
   \cup (IF \A k \in 1..Len(e.sets) :
              LET q == e.sets[k] IN
              /\ (q.hot # <<>> => Near(SumS(q.hot), e.Qc, 5))
